@@ -288,14 +288,17 @@ class StereoMolGraph(MolGraph):
         """
         atoms = tuple(atoms)  # atoms may be a one-shot iterator
         new_graph = super().subgraph(atoms)
+        atoms_set = set(atoms)
+        atoms_set.add(None)  # placeholder for a missing ligand
 
         for central_atom, atoms_atom_stereo in self._atom_stereo.items():
-            atoms_set = set((*atoms_atom_stereo.atoms, central_atom))
-            if all(atom in atoms for atom in atoms_set):
+            if central_atom in atoms_set and all(
+                atom in atoms_set for atom in atoms_atom_stereo.atoms
+            ):
                 new_graph.set_atom_stereo(atoms_atom_stereo)
 
         for _bond, bond_stereo in self._bond_stereo.items():
-            if all(atom in atoms for atom in bond_stereo.atoms):
+            if all(atom in atoms_set for atom in bond_stereo.atoms):
                 new_graph.set_bond_stereo(bond_stereo)
         return new_graph
 
